@@ -11,14 +11,14 @@ import (
 // second or more after it; the key is the long-term key of (username, realm, generated password);
 // the TURN REST variant reports the user part as user id.
 //
-//verif:props=C17 mode=ia replay=model bounds="all durations (int64 ns, incl. zero and negative) with expiry = generation time + duration between 1970 and 2116; all validation instants not before generation; secrets, user names and realms are opaque symbols (a user name contains no ':'); HMAC-SHA1/MD5/base64 as uninterpreted functions"
+//verif:props=C17 mode=ia replay=model bounds="all durations (int64 ns, incl. zero and negative) with expiry = generation time + duration between 1824 and 2116 (negative timestamps included); all validation instants not before generation; secrets, user names and realms are opaque symbols (a user name contains no ':'); HMAC-SHA1/MD5/base64 as uninterpreted functions"
 func VerifHarness_C17_window_and_key() {
 	secret, realm := vStr("secret"), vStr("realm")
 	d := time.Duration(vI64())
 	log := &allocation.VLogger{}
 	c0 := vClock()
-	vAssume(c0+int64(d) >= 0)
-	vAssume(c0+int64(d) < 1<<62) // expiry between 1970 and 2116
+	vAssume(c0+int64(d) >= -(1 << 62))
+	vAssume(c0+int64(d) < 1<<62) // expiry between 1824 and 2116 (pre-1970 expiries have negative timestamps)
 	rest := vBool()
 	var username, password string
 	var err error
